@@ -8,6 +8,7 @@ import (
 	"math/rand"
 	"sort"
 	"strings"
+	"sync"
 	"sync/atomic"
 	"testing"
 
@@ -264,6 +265,26 @@ var relations = map[string]func(*state) string{
 	},
 }
 
+var bigOnce sync.Once
+var bigPool []boson.Chunk
+
+// bigChunks are 20 full-size (256 KiB) chunks, built once per process.
+func bigChunks(t *testing.T) []boson.Chunk {
+	bigOnce.Do(func() {
+		r := rand.New(rand.NewSource(14))
+		for k := 0; k < 20; k++ {
+			d := make([]byte, boson.ChunkSize)
+			r.Read(d)
+			ch, err := cac.New(d)
+			if err != nil {
+				t.Fatal(err)
+			}
+			bigPool = append(bigPool, ch)
+		}
+	})
+	return bigPool
+}
+
 func genHistory(rng *rand.Rand, nU int) []opRec {
 	var hist []opRec
 	roots := []int{0, 1, 2}
@@ -335,7 +356,7 @@ func genHistory(rng *rand.Rand, nU int) []opRec {
 func TestCrashPoints(t *testing.T) {
 	run := obs.Start(t, "C14")
 	defer run.Done()
-	run.Rule("for random histories of 14..24 localstore operations (puts in all modes, single and multi-chunk, with and without file context; pin / unpin / remove; collection loops; capacity 6 so collection really evicts) and for EVERY operation i and EVERY k in [0, W_i) where W_i is the number of storage-driver writes (Put / Delete / batch Commit) the operation performs: restore the key-value content from before operation i into a fresh leveldb, run operation i with write k and all later writes vanishing, then reopen with the real localstore.New and dump all indexes; distinct = (operation kind and mode, W_i, k)",
+	run.Rule("for random histories of 14..24 localstore operations (puts in all modes, single and multi-chunk, with and without file context; pin / unpin / remove; collection loops; capacity 6 so collection really evicts; every fifth history contains one Put of 17..20 full-size chunks, i.e. more than 4 MiB in one batch) and for EVERY operation i and EVERY k in [0, W_i) where W_i is the number of storage-driver writes (Put / Delete / batch Commit) the operation performs: restore the key-value content from before operation i into a fresh leveldb, run operation i with write k and all later writes vanishing, then reopen with the real localstore.New and dump all indexes; distinct = (operation kind and mode, W_i, k)",
 		"crash granularity is one driver write; leveldb's own atomicity of a single write / batch is trusted",
 		"the chunkinfo collaborator of collection is a stub reporting each cached file's chunks",
 		"only index relations that hold at every clean quiescent point of the same history are required after a crash")
@@ -359,6 +380,20 @@ func TestCrashPoints(t *testing.T) {
 			w.chunks = append(w.chunks, ch)
 		}
 		hist := genHistory(rng, len(w.chunks))
+		if i%5 == 4 {
+			// one Put of 17..20 full-size chunks (more than 4 MiB in one write batch)
+			for _, b := range bigChunks(t) {
+				w.chunks = append(w.chunks, b)
+			}
+			k := 17 + rng.Intn(4)
+			big := opRec{Op: "put", Mode: []string{"uploadpin", "request", "upload", "requestpin"}[rng.Intn(4)], Root: []int{-1, 0, 1}[rng.Intn(3)]}
+			for j := 0; j < k; j++ {
+				big.Chunks = append(big.Chunks, 10+j)
+			}
+			at := rng.Intn(len(hist) + 1)
+			hist = append(hist[:at], append([]opRec{big}, hist[at:]...)...)
+			run.Stat("histories_with_a_put_above_4MiB", 1)
+		}
 		// ---- clean run: learn W_i, before/after states, snapshots ------------------------
 		db, fault, name, err := open(w, nil, capacity)
 		if err != nil {
